@@ -5,6 +5,7 @@ import (
 	"encoding/json"
 	"fmt"
 	"strings"
+	"sync"
 	"testing"
 	"time"
 
@@ -23,8 +24,9 @@ type c07Input struct {
 }
 
 type C07Plan struct {
-	Inputs []c07Input `json:"inputs"`
-	Shrink []string   `json:"_shrink"`
+	Coincide int        `json:"coincide"` // rounds of the three-way coincidence phase
+	Inputs   []c07Input `json:"inputs"`
+	Shrink   []string   `json:"_shrink"`
 }
 
 var c07JSONValues = []string{`null`, `0`, `-1`, `1e308`, `1.5`, `"x"`, `""`, `[]`, `{}`, `true`, `[1,2]`, `{"a":{"b":[]}}`, `18446744073709551616`, `"\ud800"`, `[null]`}
@@ -51,6 +53,9 @@ func genC07(seed uint64, tier string) any {
 			in.S = fmt.Sprintf("%x", r.Bytes(r.Range(1, 80)))
 		}
 		p.Inputs = append(p.Inputs, in)
+	}
+	if r.Bool(0.5) {
+		p.Coincide = r.Range(2, 6)
 	}
 	return p
 }
@@ -339,6 +344,65 @@ func runC07(t *testing.T, planAny any, res *simnet.Result) {
 			if !alive(i, in.Kind) {
 				break
 			}
+		}
+		// ---- three things in one instant: the victim's route flood (100 ms after a new peer was admitted), the first
+		// update about a node nobody has heard of relayed by one well-behaved peer, and a reject from another.  The
+		// goroutines are held back at random lock sites (in real time) so that their lock acquisitions interleave.
+		if p.Coincide > 0 && len(res.Violations) == 0 {
+			defer installYields(res.Seed, 0, "none")()
+			stopNoise := installLockNoise(res.Seed, 0.5)
+			mkPeer := func(name string, latNs int) (*simnet.Session, time.Duration) {
+				lat := time.Millisecond + time.Duration(latNs)*time.Nanosecond
+				_, sess, err := m.AttachScripted(v, simnet.LinkCfg{Name: "C" + name, Latency: lat, FIFO: true}, "z"+name, 1)
+				if err != nil {
+					return nil, 0
+				}
+				return sess, lat
+			}
+			helloAs := func(id string, seq uint64) []byte {
+				b, _ := json.Marshal(&simnet.RoutingUpdate{NodeID: id, UpdateID: dctx.nextID(), UpdateEpoch: 9 << 24, UpdateSequence: seq, Connections: map[string]float64{"v": 1}, ForwardingNode: id})
+				return append([]byte{simnet.MsgRoute}, b...)
+			}
+			for round := 0; round < p.Coincide && len(res.Violations) == 0; round++ {
+				ys, ly := mkPeer(fmt.Sprintf("y%d", round), 211+round)
+				xs, lx := mkPeer(fmt.Sprintf("x%d", round), 307+round)
+				ts, lt := mkPeer(fmt.Sprintf("t%d", round), 401+round)
+				if ys == nil || xs == nil || ts == nil {
+					break
+				}
+				time.Sleep(50 * time.Millisecond)
+				_ = ys.Send(helloAs(fmt.Sprintf("zy%d", round), 1))
+				_ = xs.Send(helloAs(fmt.Sprintf("zx%d", round), 1))
+				time.Sleep(700 * time.Millisecond)
+				t0 := w.Now()
+				_ = ts.Send(helloAs(fmt.Sprintf("zt%d", round), 1))
+				floodAt := t0 + lt + 100*time.Millisecond // admitted on arrival; the flood it asks for runs 100 ms later
+				var cw sync.WaitGroup
+				cw.Add(2)
+				go func() {
+					defer cw.Done()
+					w.SleepUntil(floodAt - ly)
+					b, _ := json.Marshal(&simnet.RoutingUpdate{NodeID: fmt.Sprintf("unheard%d", round), UpdateID: dctx.nextID(), UpdateEpoch: 9 << 24, UpdateSequence: 1,
+						Connections: map[string]float64{fmt.Sprintf("zy%d", round): 1}, ForwardingNode: fmt.Sprintf("zy%d", round)})
+					_ = ys.Send(append([]byte{simnet.MsgRoute}, b...))
+				}()
+				go func() {
+					defer cw.Done()
+					w.SleepUntil(floodAt - lx)
+					_ = xs.Send([]byte{simnet.MsgReject, '[', ']'})
+				}()
+				cw.Wait()
+				time.Sleep(400 * time.Millisecond)
+				simnet.Quiesce()
+				res.Add("probe_three_way_coincidence", 1)
+				if !alive(len(p.Inputs)+round, "coincidence") {
+					break
+				}
+				_ = ys.Close()
+				_ = ts.Close()
+				time.Sleep(200 * time.Millisecond)
+			}
+			stopNoise()
 		}
 		// and it keeps working afterwards (periodic machinery still runs)
 		time.Sleep(20 * time.Second)
